@@ -597,8 +597,16 @@ func (g *edGen) boards(w *edW, base *edBoard, d, depth int) {
 				inh = prev
 			}
 			w.line(d+1, name+": {")
-			g.board(w, nb, d+2, r.Range(0, 5), depth)
+			before := w.sb.Len()
+			g.board(w, nb, d+2, r.Range(1, 5), depth)
 			g.fixup(w, nb, d+2, inh)
+			if w.sb.Len() == before {
+				// never an empty board map: the formatter prints `name: {}` as `name`, which
+				// is a different (non-inheriting) board
+				n := fmt.Sprintf("bx%d", i)
+				nb.ensure([]string{n}).labelled = true
+				w.line(d+2, n+": "+g.label())
+			}
 			if depth < 1 && r.P(0.3) {
 				g.feat["nested-boards"] = true
 				g.boards(w, nb, d+2, depth+1)
@@ -630,7 +638,16 @@ func Edits(r *R, maxOps int) EditCase {
 			g.names = append(g.names, r.Str("x 2", "Text 3", "a b", "node 1", "x 10", "my node", "D2 Parser", "a-b", "x_y", "9lives", "x.y", "a->b"))
 			g.feat["spaced-names"] = true
 		default:
-			g.names = append(g.names, Name(r, true, 10))
+			nm := Name(r, true, 10)
+			// objects named exactly like a keyword are left out of the *program*: d2graph
+			// gives them an unquoted ID (`label`), so their own AbsID cannot be used as a key
+			// (C05/C06 territory); operations still pass keyword-like names and values.
+			for _, k := range Keywords {
+				if strings.EqualFold(nm, k) {
+					nm = "k" + nm
+				}
+			}
+			g.names = append(g.names, nm)
 			g.feat["hostile-names"] = true
 		}
 	}
